@@ -167,6 +167,27 @@ def reachMain : IO Unit := do
   report "v5" fun c => !c.bad && c.m.v5
   report "closure" closureBad
 
+/-- projection onto the control skeleton: the auxiliary flow attributes are reset -/
+def skel (c : Core) : Core :=
+  { c with err := .none, hasResp := false, respKind := .norm, reqStream := false, respStream := false, reqWs := false,
+           connect2xx := true, reqBody := false, respBody := false }
+
+def auxAll : List (Core → Core) :=
+  [ErrK.none, .killed, .other].flatMap fun e => bools.flatMap fun hr => [RespKind.norm, .ws101, .up101, .invalid].flatMap fun rk =>
+  bools.flatMap fun rs => bools.flatMap fun ps => bools.flatMap fun ws => bools.map fun c2 =>
+    fun c => { c with err := e, hasResp := hr, respKind := rk, reqStream := rs, respStream := ps, reqWs := ws, connect2xx := c2 }
+
+partial def bfsH (seen : Std.HashSet Core) (frontier : List Core) : Std.HashSet Core :=
+  match frontier with
+  | [] => seen
+  | _ =>
+    let (seen, next) := frontier.foldl (fun acc s =>
+      auxAll.foldl (fun acc f =>
+        (succs (f s)).foldl (fun (acc : Std.HashSet Core × List Core) (_, _, d) =>
+          let d := skel d
+          if acc.1.contains d then acc else (acc.1.insert d, d :: acc.2)) acc) acc) (seen, [])
+    bfsH seen next
+
 def compact (c : Core) : String :=
   let f (b : Bool) (ch : String) := if b then ch else "."
   s!"{csName c.cs}/{ssName c.ss} k={reprStr c.paused} " ++ f c.m.fRH "H" ++ f c.m.fReq "Q" ++ f c.m.fRespH "h" ++ f c.m.fResp "R"
